@@ -279,6 +279,7 @@ def _expected_view(case):
 SERIES = {
     # relation -> (quantum exponent q: y = round(value * 10^q))
     "water_density": 6, "water_viscosity": 8, "water_permittivity": 6, "sulfuric_acid_density": 5,
+    "water_diffusion": 15,
 }
 
 
@@ -308,7 +309,10 @@ def series_trace(item):
             o = physq.observe(_build(mk([t, 100])), WARN_WORDS)
             if o["raised"]:
                 return None, dict(fn=fn, T=t, exc=o["exc"])
-            obs.append((physq.magnitude_in(o["value"], unit), o["warned"]))
+            try:
+                obs.append((physq.magnitude_in(o["value"], unit), o["warned"]))
+            except Exception as e:  # wrong dimension / not a number: an observation, not a crash
+                return None, dict(fn=fn, T=t, exc="projection: %s: %s" % (type(e).__name__, str(e)[:100]))
         warned_call = False
     else:
         case = mk([0, 1])
@@ -322,15 +326,24 @@ def series_trace(item):
         if o["raised"]:
             return None, dict(fn=fn, T="array", exc=o["exc"])
         v = o["value"]
-        vals = (v / physq.UNITS[unit]).simplified.magnitude if physq.is_quantity(v) else np.asarray(v)
-        vals = np.asarray(vals, dtype=float).ravel()
+        try:
+            if physq.is_quantity(v):
+                r = (v / physq.UNITS[unit]).simplified
+                if dict(r.dimensionality):
+                    raise ValueError("incompatible dimension %s" % (v.dimensionality,))
+                vals = r.magnitude
+            else:
+                vals = v
+            vals = list(np.asarray(vals).ravel())
+        except Exception as e:
+            return None, dict(fn=fn, T="array", exc="projection: %s: %s" % (type(e).__name__, str(e)[:100]))
         if len(vals) != len(ts):
             return None, dict(fn=fn, T="array", exc="result has %d elements for %d temperatures" % (len(vals), len(ts)))
-        obs = [(float(x), False) for x in vals]
+        obs = [(x, False) for x in vals]
         warned_call = o["warned"]
     for t, (val, w) in zip(ts, obs):
-        y = int(round(Fraction(val) * 10 ** SERIES[fn]))
-        evs.append({"k": "sample", "fn": fn, "mode": mode, "arr": bool(arr), "T": [t, 100],
+        ok, y = physq.quantise(val, SERIES[fn])  # total: nan / inf / complex / too large -> ok=False
+        evs.append({"k": "sample", "ok": ok, "fn": fn, "mode": mode, "arr": bool(arr), "T": [t, 100],
                     "P": fixed.get("P", [0, 1]), "w": fixed.get("w", [0, 1]),
                     "y": y, "qexp": SERIES[fn], "warned": w})
     evs.append({"k": "result", "n": len(ts), "arr": bool(arr), "warned": warned_call})
@@ -343,7 +356,10 @@ def run(ctx):
     module, cfg = ("PhysProps_MC", "PhysProps_MC_q.cfg") if ctx.quick else ("PhysProps_MCT", "PhysProps_MC_t.cfg")
     res = ctx.tlc(module, cfg, require_actions=["GenChoose", "GenCall"], require_cases=300, timeout=1500,
                   java_opts=JAVA_OPTS)
-    cases = res.cases
+    catalog = [c for c in res.cases if c["in"]["fn"] == "series-catalog"]
+    cases = [c for c in res.cases if c["in"]["fn"] != "series-catalog"]
+    if len(catalog) != 1:
+        raise core.MachineryFailure("expected one series catalog, got %d" % len(catalog))
     classes = sorted({c["cls"] for c in cases})
     ctx.counters["classes"] = len(classes)
     fns = {c["in"]["fn"] for c in cases}
@@ -400,11 +416,22 @@ def run(ctx):
         ("water_permittivity", {"P": [1, 1]}, list(range(27315, 62315 + 1, 4 * step)), "units", True),
         ("water_permittivity", {"P": [1000, 1]}, list(range(27315, 62315 + 1, 8 * step)) + [63000], "unitless", True),
     ]
+    # array-valued calls from the spec's catalog (every below / inside / above combination of each
+    # documented range), in plain numbers and as quantity arrays
+    pats = set()
+    for ent in catalog[0]["in"]["series"]:
+        fixed = {"P": ent["P"]} if ent["fn"] == "water_permittivity" else {}
+        pats.add(ent["pat"])
+        for md in ("unitless", "units"):
+            items.append((ent["fn"], fixed, list(ent["Ts"]), md, True))
+    if not {"inside", "below+inside", "inside+above", "below+upper-half"} <= pats:
+        raise core.MachineryFailure("vacuity: series catalog lacks patterns: %s" % sorted(pats))
     traces = []
     for it in items:
         tr, err = series_trace(it)
         if tr is None:
-            ctx.violation({"fn": it[0], "mode": "unitless", "constants": "none", "clause": "raised"},
+            ctx.violation({"fn": it[0], "mode": (it[3] if len(it) > 3 else "unitless") + ("+array" if len(it) > 4 and it[4] else ""),
+                           "constants": "none", "clause": "raised"},
                           {"direction": "code->spec", "trace": [], "observed": err, "verdict": "call raised"})
             continue
         traces.append(tr)
@@ -415,7 +442,8 @@ def run(ctx):
             continue
         if clause.startswith("step:") or clause in ("no-result-event", "count"):
             raise core.MachineryFailure("series trace outside the model: %s at %d" % (clause, pos))
-        ctx.violation({"fn": tr[0]["fn"], "mode": "unitless", "constants": "none", "clause": clause},
+        ctx.violation({"fn": tr[0]["fn"], "mode": tr[0].get("mode", "unitless") + ("+array" if tr[0].get("arr") else ""),
+                       "constants": "none", "clause": clause},
                       {"direction": "code->spec", "trace": tr, "observed": tr[min(pos, len(tr)) - 1],
                        "verdict": {"verdict": v, "pos": pos, "clause": clause}, "tlc_cfg": "PhysPropsTrace.cfg"})
     if traces:
